@@ -155,6 +155,11 @@ func c14Run(r *mon.Run, c *c14comp, idx int) {
 		panic(err)
 	}
 	ctx, nonce := freshNonces(jr)
+	if idx%4 == 3 {
+		// the default context: the response request then goes out without a context (as KeyshareUserResponseRequest
+		// builds it) and the server must fall back to the same value the user hashed
+		ctx = bi(1)
+	}
 	var builders gabi.ProofBuilderList
 	var pks []*gabikeys.PublicKey
 	total := make([]*big.Int, len(c.slots)) // ledger secret per slot
@@ -382,7 +387,11 @@ func c14Deviations(r *mon.Run, c *c14comp, kss *kssState, t *kssTranscript) {
 			q.Context = nil
 		}},
 		dev{"context changed (allowed)", func(q *gabi.KeyshareResponseRequest[string], _ *gabi.KeyshareCommitmentRequest, _ map[string]*gabikeys.PublicKey) {
-			q.Context = add(q.Context, bigOne)
+			if q.Context == nil {
+				q.Context = bi(2)
+			} else {
+				q.Context = add(q.Context, bigOne)
+			}
 		}},
 		dev{"nonce changed (allowed)", func(q *gabi.KeyshareResponseRequest[string], _ *gabi.KeyshareCommitmentRequest, _ map[string]*gabikeys.PublicKey) {
 			q.Nonce = add(q.Nonce, bigOne)
